@@ -363,6 +363,23 @@ def main(tier: str, seed: int) -> int:
 
 def build_probe(f: dict) -> Case:
     """Diamond: two private bases sharing a private root."""
+    if f["id"] == "KF-C17-private-base-through-reexporting-package":
+        import re
+
+        base = HClass("_ViaBase", "hier_core")
+        base.methods = [("alpha", "inst")]
+        rel = HClass("ViaRel", "hier_a0")
+        rel.bases = [base]
+        rel.methods = [("own_m", "inst")]
+        allc = [base, rel]
+        files = render_modules(allc)
+        files["src/pk/corepkg/_viabase.py"] = files.pop("src/pk/hier_core.py")
+        files["src/pk/corepkg/__init__.py"] = "from ._viabase import _ViaBase\n"
+        files["src/pk/hier_a0.py"] = re.sub(r"from (\.|pk\.)hier_core import _ViaBase", "from .corepkg import _ViaBase", files["src/pk/hier_a0.py"])
+        assert "from .corepkg import _ViaBase" in files["src/pk/hier_a0.py"]
+        files["src/pk/zz_user.py"] = "from pk.corepkg import _ViaBase\n\n\ndef make() -> object:\n    return _ViaBase()\n"
+        truth = cpython_truth(allc)
+        return Case(cid="probe:" + f["id"], files=files, opts=[], meta={"truth": truth, "kinds": {c.name: dict(c.methods) for c in allc}, "classes": {c.name: c for c in allc}}, reach=REACH)
     root = HClass("_Root", "hier_a0")
     root.methods = [("alpha", "inst")]
     a = HClass("_Left", "hier_a0")
